@@ -16,7 +16,7 @@ RULE = ("every (element type, reply budget B, tag length n, start i, count c) re
         "composition of a write range into consecutive Write Tag Fragmented requests, in every order for <= 4 fragments. "
         "non-trivial = transfers needing >= 2 fragments (reads) / >= 2 fragments (writes); all cases distinct by construction")
 BOUNDS = {
-    "quick": "types SINT, BOOL, INT, DINT, REAL, LINT; B in 1..20 and 488 (n=130/250 for 488); n in {1,2,3,5,8,12}; all i,c; "
+    "quick": "types SINT, BOOL, INT, DINT, REAL, LINT, LREAL; B in 1..20 and 488 (n=130/250 for 488); n in {1,2,3,5,8,12}; all i,c; "
              "write compositions for c <= 6 on n=8",
     "thorough": "types SINT, USINT, BOOL, INT, UINT, DINT, UDINT, REAL, LINT, ULINT, LREAL; B in 1..40 and 488; n in 1..24; "
                 "write compositions for c <= 8 on n=9",
@@ -205,7 +205,7 @@ def shard(acc, item, tier, seed):
 
 def run(ctx):
     if ctx.quick:
-        types = ["SINT", "BOOL", "INT", "DINT", "REAL", "LINT"]
+        types = ["SINT", "BOOL", "INT", "DINT", "REAL", "LINT", "LREAL"]
         ns = [1, 2, 3, 5, 8, 12]
         Bmax, wn, wc = 20, 8, 6
     else:
